@@ -6,6 +6,7 @@ extern crate anoncreds;
 mod c13;
 mod c09;
 mod c16;
+mod c19;
 mod world;
 mod c20;
 mod out;
@@ -15,6 +16,11 @@ mod sx;
 
 fn main() {
     let args: Vec<String> = std::env::args().collect();
+    if args.len() >= 5 && args[1] == "C19-child" {
+        std::panic::set_hook(Box::new(|_| {}));
+        c19::child(&args[2..]);
+        return;
+    }
     if args.len() < 5 {
         eprintln!("usage: avh <property> <tier> <seed> <outdir> [extra...]");
         std::process::exit(2);
@@ -28,6 +34,7 @@ fn main() {
     match prop {
         "C13" => c13::run(tier, seed, outdir),
         "C16" => c16::run(tier, seed, outdir),
+        "C19" => c19::run(tier, seed, outdir),
         "C09" => c09::run(tier, seed, outdir),
         "C20" => c20::run(tier, seed, outdir),
         _ => {
